@@ -59,7 +59,8 @@ def build(name, n, rng):
         return "quat_matmat", u.quat_matmat, (_q(rng, n, n + 1), _q(rng, n + 1, n - 1)), {}
     if name == "quat_matmat.sparse":
         F = rng.standard_normal((n, n, 4)) * (rng.random((n, n, 1)) < 0.3)
-        sp = u.SparseQuaternionMatrix(*[sparse.csr_matrix(F[..., c]) for c in range(4)], (n, n))
+        from .qlib import sp_quat
+        sp = sp_quat(F)
         return "quat_matmat", u.quat_matmat, (sp, _q(rng, n, 3)), {}
     if name == "quat_hermitian":
         return "quat_hermitian", u.quat_hermitian, (_q(rng, n, n + 2),), {}
